@@ -11,6 +11,7 @@ import hashlib
 import os
 
 REPO_SRC = os.environ.get("PYVC_REPO_SRC", "/repo/src")
+EXTRA_ROOTS: list[str] = []  # roots of emitted packages (E obligations: the emitted code itself is verified)
 
 
 class ModuleInfo:
@@ -24,6 +25,7 @@ class ModuleInfo:
         self.classes = {}
         self.assigns = {}
         self.imports = {}  # local name -> ("mod", dotted) | ("attr", dotted_module, name)
+        self.star = []     # modules imported with `from x import *`
         self._index()
 
     def _index(self):
@@ -53,6 +55,9 @@ class ModuleInfo:
                     parts = parts[: -(node.level - 1)]
                 base = ".".join(parts + ([node.module] if node.module else []))
             for a in node.names:
+                if a.name == "*":
+                    self.star.append(base)
+                    continue
                 self.imports[a.asname or a.name] = ("attr", base, a.name)
         elif isinstance(node, (ast.If, ast.Try)):
             for sub in ast.iter_child_nodes(node):
@@ -74,11 +79,12 @@ def module_path(dotted):
         if os.path.isfile(os.path.join(base, "__init__.py")):
             return os.path.join(base, "__init__.py")
         return None
-    base = os.path.join(REPO_SRC, *dotted.split("."))
-    if os.path.isfile(base + ".py"):
-        return base + ".py"
-    if os.path.isfile(os.path.join(base, "__init__.py")):
-        return os.path.join(base, "__init__.py")
+    for root in [REPO_SRC] + EXTRA_ROOTS:
+        base = os.path.join(root, *dotted.split("."))
+        if os.path.isfile(base + ".py"):
+            return base + ".py"
+        if os.path.isfile(os.path.join(base, "__init__.py")):
+            return os.path.join(base, "__init__.py")
     return None
 
 
